@@ -942,9 +942,18 @@ func stateEndTop(s *Scanner, c byte) state {
 	switch {
 	case s.isNewLine(c):
 		s.found(lexeme.NewLine)
+		if s.lengthComputing && !s.allowAnnotation {
+			s.step = stateEndTopAfterNewLine
+		}
 		return scanContinue
 
 	case s.isAnnotationStart(c):
+		if s.lengthComputing && s.index < s.dataSize && s.data[s.index] != '/' && s.data[s.index] != '*' {
+			// A slash that doesn't begin `//` or `/*` can't continue the schema:
+			// it is the first byte after it (ex: `/cats` in "{}\n/cats").
+			s.found(lexeme.EndTop)
+			return scanContinue
+		}
 		s.switchToAnnotation()
 		return scanContinue
 
@@ -964,6 +973,18 @@ func stateEndTop(s *Scanner, c byte) state {
 	}
 
 	return scanContinue
+}
+
+// stateEndTopAfterNewLine is stateEndTop in length computing mode after a line
+// break, when no annotation can follow the top-level value (it ends with a
+// non-empty array): an annotation on a following line isn't a part of the schema,
+// it is the first byte after it.
+func stateEndTopAfterNewLine(s *Scanner, c byte) state {
+	if s.isAnnotationStart(c) {
+		s.found(lexeme.EndTop)
+		return scanContinue
+	}
+	return stateEndTop(s, c)
 }
 
 // after reading `"`
@@ -1198,8 +1219,7 @@ func stateTypesShortcutBeginOfSchemaName(s *Scanner, c byte) state {
 func stateTypesShortcutSchemaName(s *Scanner, c byte) state {
 	if s.isAnnotationStart(c) {
 		finishShortcut(s)
-		s.switchToAnnotation()
-		return scanContinue
+		return s.step(s, c) // the state after the shortcut deals with the slash
 	}
 
 	if s.isCommentStart(c) {
@@ -1228,8 +1248,7 @@ func stateTypesShortcutSchemaName(s *Scanner, c byte) state {
 func stateTypesShortcutBeforePipe(s *Scanner, c byte) state {
 	if s.isAnnotationStart(c) {
 		finishShortcut(s)
-		s.switchToAnnotation()
-		return scanContinue
+		return s.step(s, c) // the state after the shortcut deals with the slash
 	}
 
 	if s.isCommentStart(c) {
